@@ -98,7 +98,34 @@ func c04policy(r *gen.R) *model.Policy {
 				model.IsIn(model.Lit(u), u.T, model.Lit(gen.RandUID(r))),
 				model.Bin(model.OIn, model.Lit(u), model.SetE(model.Lit(gen.RandUID(r)), model.Lit(gen.RandUID(r)))),
 			}
-			switch r.Intn(12) {
+			switch r.Intn(15) {
+			case 12, 13, 14:
+				// a projection out of a composite literal one of whose OTHER members fails or
+				// depends on the request: the whole literal is evaluated before the projection
+				sib := junk
+				if r.Bool() {
+					sib = model.Access(model.Var("context"), mon.Pick(r, []string{"no_such_attribute", "a", "b"}))
+				}
+				if r.Bool() {
+					sib = model.Bin(model.OAdd, model.Lit(model.Long(9223372036854775807)), model.Lit(model.Long(int64(r.Intn(2)))))
+				}
+				konst := model.Lit(mon.Pick(r, []model.Val{model.Bool(true), model.Long(1), model.Str("s")}))
+				keys, vals := []string{"sel", "sib"}, []*model.Expr{konst, sib}
+				if r.Bool() {
+					keys, vals = []string{"a", "sel"}, []*model.Expr{sib, konst}
+				}
+				switch r.Intn(5) {
+				case 0:
+					body = model.Bin(model.OEq, model.Access(model.RecE(keys, vals), "sel"), konst)
+				case 1:
+					body = model.Has(model.RecE(keys, vals), "sel")
+				case 2:
+					body = model.Un(model.ONot, model.Un(model.OIsEmpty, model.SetE(konst, sib)))
+				case 3:
+					body = model.Bin(model.OContains, model.SetE(konst, sib), konst)
+				default:
+					body = model.Bin(model.OEq, model.Access(model.Access(model.RecE([]string{"outer"}, []*model.Expr{model.RecE(keys, vals)}), "outer"), "sel"), konst)
+				}
 			case 9:
 				// absorbing constant on the RIGHT of a request/store-dependent left operand that may fail
 				gv := &gen.G{R: r, Cfg: gen.ExprCfg{PIll: 0.15, SafeDT: true}}
